@@ -5,6 +5,7 @@ import XL.Model.Eng
 import XL.Generated.Tables
 import XL.Model.Ops
 import XL.Model.FloatNum
+import XL.Model.Lex
 /-!
 # Request dispatcher of the executable model
 -/
@@ -174,11 +175,21 @@ def answerOps (cmd : String) (args : List String) : Option String :=
       pure ("t" ++ encodeStr (displayVal x).toList)
   | _, _ => none
 
+def answerParse (cmd : String) (args : List String) : Option String :=
+  match cmd, args with
+  | "parse", [t] =>
+      pure (match parseString (decodeStr t) with
+        | .ok a => "ok " ++ encodeStr (render a).toList
+        | .error .formula => "error"
+        | .error .outOfDomain => "ood"
+        | .error (.escape w) => "escape:" ++ w)
+  | _, _ => none
+
 def answer (line : String) : String :=
   match (line.trimAscii.toString.splitOn " ").filter (· ≠ "") with
   | [] => "bad-request"
   | cmd :: args =>
-    match (((answerRect cmd args).orElse (fun _ => answerRef cmd args)).orElse (fun _ => answerCal cmd args)).orElse (fun _ => answerOps cmd args) with
+    match ((((answerRect cmd args).orElse (fun _ => answerRef cmd args)).orElse (fun _ => answerCal cmd args)).orElse (fun _ => answerOps cmd args)).orElse (fun _ => answerParse cmd args) with
     | some r => r
     | none => "bad-request"
 
